@@ -654,6 +654,15 @@ fn dispatch_tables(ex: &Extracted, notes: &mut Vec<String>) -> Vec<Dispatch> {
                 None => {
                     if known.contains(&t.as_str()) {
                         notes.push(format!("dispatch of {}: the reader refuses the minimal input for tag {:?}", en, t));
+                    } else if tag_is_real(en, t) == Some(true) {
+                        // a tag of the source this harness has no input for, but which the compiled reader does
+                        // dispatch on: its arms are taken from the source
+                        notes.push(format!("dispatch of {}: tag {:?} is read into a variant of its own but the harness has no input for it — arm taken from the source", en, t));
+                        if let Some(sd) = ex.dispatch.iter().find(|d| d.value_enum == *en) {
+                            for a in sd.reader.iter().filter(|a| a.tags.contains(t)) {
+                                d.reader.push(a.clone());
+                            }
+                        }
                     }
                 }
             }
@@ -683,6 +692,58 @@ fn dispatch_tables(ex: &Extracted, notes: &mut Vec<String>) -> Vec<Dispatch> {
         out.push(d);
     }
     out
+}
+
+fn rename(p: &Primitive, from: &str, to: &str) -> Primitive {
+    match p {
+        Primitive::Name(n) if n.as_str() == from => name_prim(to),
+        Primitive::Array(a) => Primitive::Array(a.iter().map(|x| rename(x, from, to)).collect()),
+        Primitive::Dictionary(d) => {
+            let mut o = Dictionary::new();
+            for (k, v) in d.iter() {
+                o.insert(k.clone(), rename(v, from, to));
+            }
+            Primitive::Dictionary(o)
+        }
+        q => q.clone(),
+    }
+}
+
+/// variants that stand for "no arm of its own": a tag that is read into one of these is not a tag of the dispatch
+const CATCH_ALL: &[&str] = &["Other", "Named"];
+
+/// Is `tag` (a string the syntactic scan found near the reader of `en`) a tag the compiled reader dispatches on?
+/// The inputs of every known tag are fed with the tag's name replaced by `tag`: a real tag is read into a variant of
+/// its own at least once; a fragment of a tag (`"Cal"`, `"RGB"` in a rewritten guard) ends in the catch-all or in
+/// an error every time. `None`: the enum has no inputs to try with.
+pub fn tag_is_real(en: &str, tag: &str) -> Option<bool> {
+    let known = KNOWN_TAGS.iter().find(|(e, _)| *e == en)?.1;
+    if matches!(en, "StreamFilter" | "TimeRel") {
+        return Some(probe_enum(en, &[tag.to_string()]).contains_key(tag));
+    }
+    let mut tried = false;
+    for k in known {
+        let mut rng = Rng::derive(1, &format!("probe/{}/{}", en, k), 0);
+        let Some(cases) = guarded(|| sweep_inputs(en, k, &mut rng)).flatten() else { continue };
+        for c in cases.iter().filter(|c| c.ty == canonical_ty(en)) {
+            let renamed = match &c.input {
+                SweepInput::Prim(p, objs) => SweepInput::Prim(rename(p, k, tag), objs.iter().map(|(i, q)| (*i, rename(q, k, tag))).collect()),
+                SweepInput::Doc { objs, streams, target } => SweepInput::Doc {
+                    objs: objs.iter().map(|(i, q)| (*i, rename(q, k, tag))).collect(),
+                    streams: streams.iter().map(|(i, (d, data))| (*i, (match rename(&Primitive::Dictionary(d.clone()), k, tag) { Primitive::Dictionary(d2) => d2, _ => d.clone() }, data.clone()))).collect(),
+                    target: *target,
+                },
+            };
+            tried = true;
+            let c2 = SweepCase { desc: c.desc.clone(), ty: c.ty, input: renamed };
+            if let Some((v, _)) = observe_case(en, &c2) {
+                if !CATCH_ALL.contains(&v.as_str()) {
+                    return Some(true);
+                }
+            }
+        }
+    }
+    if tried { Some(false) } else { None }
 }
 
 // ---------------------------------------------------------------------------------------------------
